@@ -271,6 +271,13 @@ def prove(ctx, props_module, extra_targets=("esrmodel",), leanchecker=False):
                 res["leanchecker"] = p.returncode
                 if p.returncode != 0:
                     res["failed"].append("leanchecker %s: %s" % (" ".join(modules), (p.stdout + p.stderr)[-500:]))
+        # private copy of the executable model built from THIS tree's tables: a concurrent check of another tree
+        # (ESRV_REPO) may rebuild the shared binary while this run is still driving it
+        exe = os.path.join(LEAN, ".lake", "build", "bin", "esrmodel")
+        if res["model_ok"] and os.path.exists(exe) and getattr(ctx, "tmp", None):
+            priv = os.path.join(ctx.tmp, "esrmodel")
+            shutil.copy2(exe, priv)
+            os.environ["ESRV_MODEL_EXE"] = priv
     res["ok"] = res["build_ok"] and not res["failed"] and res["discharged"] == res["obligations"]
     res["wall_s"] = round(time.time() - t0, 2)
     ctx.proof = res
@@ -306,7 +313,7 @@ def _failed_decls(out):
 
 def model(lines, timeout=600):
     """Feed op lines to the compiled Lean model; returns the result lines (same length)."""
-    exe = os.path.join(LEAN, ".lake", "build", "bin", "esrmodel")
+    exe = os.environ.get("ESRV_MODEL_EXE") or os.path.join(LEAN, ".lake", "build", "bin", "esrmodel")
     if not os.path.exists(exe):
         raise RuntimeError("model executable missing (build failed)")
     data = "\n".join(lines) + "\n"
